@@ -2,6 +2,18 @@
 """Writes MANIFEST.json. The list DONE names the properties whose checks exist."""
 import json, subprocess
 DONE = {
+ "C03": ("exploration", "panic / step-counter (fuel) / recursion-depth-gauge / budget-restored invariant hooks + child-process crash monitor",
+         "Every parse call is observed by catch_unwind (the monitoring build turns integer overflow into a panic), by the hook step counter (termination decided on logical steps, never wall-clock), by the recursion-depth gauge (bounded recursion seen as a number) and by the nesting-budget accessor (restored to 128 after every call, Ok or Err, across call histories of up to 300 calls on one parser). All byte strings of length <= 2 and all length-3 strings over a 52-byte alphabet are enumerated; 10^6-deep nests of 14 opener kinds run in child processes on a 2 MiB stack whose exit status is the observation.",
+         "trusted: hooks tick in every scanning loop; exit-status interpretation of stack overflow", "4/C03"),
+ "C06": ("fault_enumeration", "three-way source differential + exact read-fault oracle from a counting twin run, hard error injected at every byte offset",
+         "Same bytes through &str, &[u8] and ten stream schedules (1-byte, random, whole, BufReader caps 1/2/3/8, with Interrupted injection) for four APIs must give the same outcome (value, or category+message+source). For the fault clause a hard error is injected at every offset 0..=len of every input; a fault-free twin through a counting reader tells whether the parser asks for the faulted byte; if it does, the result must be an Io error carrying the injected error unless a perturbation test shows the delivered prefix already determines the outcome.",
+         "trusted: parser determinism on identical prefixes; the perturbation set used to decide 'outcome already determined'", "4/C06"),
+ "C07": ("fault_enumeration", "instrumented io::Write doubles: short-write schedules and a hard error / zero-acceptance injected at every output offset",
+         "The String from to_string_custom is the reference text; each io::Write entry point must deliver exactly those bytes through sinks that accept 1,2,3,7 or random bytes per call or return Interrupted, and must return Err with the delivered bytes a prefix of the text when the sink fails or returns Ok(0) at offset k, for every k in 0..=len (exhaustive per value and option set; all 576 printer option sets in thorough).",
+         "trusted: to_string_custom as reference text", "4/C07"),
+ "C17": ("exploration", "creation-site validity hook before each from_utf8_unchecked + re-validation of every returned str + Miri on a fixed slice",
+         "Under --cfg lexpr_verif a check immediately before each of the five unchecked conversions panics on ill-formed bytes; every str reachable from every parse result (value and datum APIs, three sources) and every printed String is re-validated; raw ill-formed sequences (all 65536 two-byte sequences, class x boundary grids for 3-4 bytes) placed inside strings, symbols, keywords and characters must be rejected. Thorough additionally runs 480 inputs under Miri (cargo +nightly miri run, 16 shards).",
+         "trusted: std::str::from_utf8; hook placement; Miri's UB model for the interpreted slice", "4/C17"),
  "C01": ("exploration", "differential round-trip monitor (9 print x 9 parse entry points) + independent R7RS reference reader",
          "Values from a generator covering all 11 kinds, every char class, boundary integers and doubles by shape of their shortest form are printed through every print entry point (bytes must agree) and re-read through every parse entry point (structural equality, floats by the C05 rule of the build); an independent reference reader must read the same datum. Both feature builds. Thorough enumerates every Unicode scalar value. Exploration: the space is infinite, the defect classes are per-leaf-class and are each hit thousands of times.",
          "trusted: the harness's reference reader and value comparator; Rust's f64 parser as correctly rounded", "4/C01"),
